@@ -61,6 +61,19 @@ def form_a(draw):
             shape = [sizes[ix] for ix in labs]
         terms.append(term)
         shapes.append(shape)
+    if nops >= 2 and draw(st.integers(0, 5)) == 0:
+        # numpy also broadcasts a NAMED index that has size 1 on one operand
+        # and a larger size on another one: shrink one such axis to 1
+        cand = [
+            (i, j)
+            for i, t in enumerate(terms)
+            for j, ch in enumerate(t.replace("...", ""))
+            if "..." not in t and sizes[ch] > 1 and t.count(ch) == 1 and sum(ch in t2 for t2 in terms) >= 2
+        ]
+        if cand:
+            i, j = draw(st.sampled_from(cand))
+            shapes[i] = list(shapes[i])
+            shapes[i][j] = 1
     used = list(dict.fromkeys(ch for t in terms for ch in t if ch != "."))
     explicit = draw(st.booleans())
     eq = ",".join(terms)
@@ -120,7 +133,8 @@ def form_b(draw):
     if draw(st.booleans()):
         k = draw(st.integers(0, len(used)))
         out = draw(st.lists(st.sampled_from(used), min_size=k, max_size=k, unique=True)) if used else []
-        if any_ell and draw(st.integers(0, 9)) != 0:
+        if (any_ell and draw(st.integers(0, 9)) != 0) or (not any_ell and draw(st.integers(0, 7)) == 0):
+            # (an Ellipsis in the output sublist only stands for zero dimensions)
             pos = draw(st.integers(0, len(out)))
             out = out[:pos] + ["..."] + out[pos:]
     return {
